@@ -98,5 +98,43 @@ def isTransposePattern (A C : Csc K) : Bool :=
         (let lo := bsearch C.inner j (C.outer.getD i 0) (C.outer.getD (i + 1) 0)
          !(lo == C.outer.getD (i + 1) 0 || C.inner.getD lo 0 != j))
 
+/-- `permute_sparse_symmetric_matrix(A, C, ordering)`: `C = A(p,p)` (upper triangle in, upper triangle out) in two bucket passes;
+    `pinv` is `ordering.inv`.  Returns `C` and the map from the value slots of `A` to those of `C` (`Ai_to_Ci`; slots of `A` below
+    the diagonal keep the initial value, the C++ leaves them unwritten). -/
+def permuteSym [Zero K] (A : Csc K) (pinv : Array Nat) : Csc K × Array Nat :=
+  let n := A.rows
+  let upper (j : Nat) : List Nat := (A.colRange j).filter fun k => A.inner.getD k 0 ≤ j
+  -- 1st pass: count the entries of each column of CT (lower triangle of the permuted matrix, by min(i2, j2))
+  let w := (List.range n).foldl (fun (w : Array Nat) j =>
+    let j2 := pinv.getD j 0
+    (upper j).foldl (fun w k => let i2 := pinv.getD (A.inner.getD k 0) 0; w.modify (if i2 < j2 then i2 else j2) (· + 1)) w) (Array.replicate n 0)
+  let ctOuter := (List.range n).foldl (fun (o : Array Nat) i => o.push (o.getD i 0 + w.getD i 0)) #[0]
+  let tot := ctOuter.getD n 0
+  let w := ctOuter.extract 0 n
+  let st := (List.range n).foldl (fun (st : Array Nat × Array Nat × Array K × Array Nat) j =>
+    let j2 := pinv.getD j 0
+    (upper j).foldl (fun st k =>
+      let (w, inn, vl, back) := st
+      let i2 := pinv.getD (A.inner.getD k 0) 0
+      let col := if i2 < j2 then i2 else j2
+      let q := w.getD col 0
+      (w.modify col (· + 1), inn.setIfInBounds q (if i2 > j2 then i2 else j2), vl.setIfInBounds q (A.vals.getD k 0), back.setIfInBounds q k)) st)
+    (w, Array.replicate tot 0, Array.replicate tot 0, Array.replicate tot 0)
+  let ctInner := st.2.1
+  let ctVals := st.2.2.1
+  let ctBack := st.2.2.2
+  -- 2nd pass: transpose CT into C (upper triangle, rows sorted)
+  let cnt := (List.range tot).foldl (fun (c : Array Nat) k => c.modify (ctInner.getD k 0) (· + 1)) (Array.replicate n 0)
+  let cOuter := (List.range n).foldl (fun (o : Array Nat) j => o.push (o.getD j 0 + cnt.getD j 0)) #[0]
+  let w2 := cOuter.extract 0 n
+  let st2 := (List.range n).foldl (fun (st : Array Nat × Array Nat × Array K × Array Nat) j =>
+    (List.range' (ctOuter.getD j 0) (ctOuter.getD (j + 1) 0 - ctOuter.getD j 0)).foldl (fun st k =>
+      let (w, inn, vl, map) := st
+      let i := ctInner.getD k 0
+      let q := w.getD i 0
+      (w.modify i (· + 1), inn.setIfInBounds q j, vl.setIfInBounds q (ctVals.getD k 0), map.setIfInBounds (ctBack.getD k 0) q)) st)
+    (w2, Array.replicate tot 0, Array.replicate tot 0, Array.replicate (A.outer.getD A.cols 0) 0)
+  ({ rows := n, cols := n, outer := cOuter, inner := st2.2.1, vals := st2.2.2.1 }, st2.2.2.2)
+
 end Csc
 end Piqp
